@@ -36,7 +36,7 @@ TEXT.update({
             "Sortedness and prefix lookups for arities 0..2 are only covered through the map rules of C14. Known finding: get_mut hands out &mut subtrees that emitted code shrinks."),
     "C09": ("rustc's type checker accepts every emitted module and component (`--emit=metadata`, nothing linked or run) for /verif/corpus in both build modes and the shipped theories (module mode in quick, both in thorough); imports equal exports between module and components, a link-time condition the type checker does not see (T-X); env structs only name fields that exist (T-ENV); ModelDelta has exactly the vectors the rules push to (T-DELTA).",
             "Bounded by the analysed programs; absence of panics in the lowering passes for programs outside them is not decided. Known finding D10 (member enum `!`)."),
-    "C11": ("On the path that renders a diagnostic (Display of CompileErrorWithContext / SourceDisplay, From<ParseError>, whipe_comments, line table) every panic-capable operation in the reachable call graph (explicit panics, unwrap/expect, str/slice indexing, overflow/bounds asserts) is in an audited table with one reason per entry, one of them under a checked structural precondition (M-PANIC); byte offsets are never computed from str::lines() plus a constant terminator width, and the parsed text is never a re-joined copy of the text diagnostics are rendered against (M-LINES).",
+    "C11": ("On the path that renders a diagnostic (Display of CompileErrorWithContext / SourceDisplay, From<ParseError>, whipe_comments, line table) every panic-capable operation in the reachable call graph (explicit panics, unwrap/expect, str/slice indexing, overflow/bounds asserts) is in an audited table with one reason per entry, one of them under a checked structural precondition (M-PANIC); byte offsets are never computed from str::lines() plus a constant terminator width, and the parsed text is never a re-joined copy of the text diagnostics are rendered against (M-LINES); every syntax-node kind whose location the semantic checks unwrap receives a location in every grammar action that creates such a node (M-LOCS, over the MIR of the lalrpop-generated actions).",
             "Diagnostic path only: panics and hangs inside parsing, closing the compiler's own model and the semantic passes rest on invariants of that model and are NOT decided."),
     "C12": ("MIR control-flow analysis of process_file and compile_component_rlib (dominators, must-pass over all paths, so over all crash points): every output mutation (fs::write, rustc, component build) is dominated by the removal of the digest that vouches for it; from every mutation every Ok return passes the digest write; nothing is mutated after it; the up-to-date path mutates nothing; the component digest is written only after rustc succeeded; the skip needs digest match and existing rlib; only these functions touch the file system; stale component files are removed before the directory is enumerated (M-DIGEST).",
             "Durability (fsync) is not decided (acknowledged in the source); equality of regenerated text with a clean build is C13."),
